@@ -58,6 +58,13 @@ def checkCb (j : Json) : Except String Verdict := do
       | none => if mm.isNone then mm := some s!"update {idx + 1}: no breaker dump"
     else
       if (jObj? o "cb").isSome && mm.isNone then mm := some "breaker dump before registration"
+    -- a rejected cluster response after this update: no step of the model, the breakers stay as they are
+    match jObj? o "afterRejected", jObj? o "cb" with
+    | some rj, some cb =>
+      if canonCb (parseCbObs rj) != canonCb (parseCbObs cb) then
+        if mm.isNone then mm := some s!"rejected response after update {idx + 1}: model leaves the breakers at {canonCb (parseCbObs cb)}, impl {canonCb (parseCbObs rj)}"
+        if sf.isNone then sf := some s!"C16.latest_accepted_only: a cluster response that was rejected as a whole (NACKed) changed the breaker configuration: before {canonCb (parseCbObs cb)}, after {canonCb (parseCbObs rj)}"
+    | _, _ => pure ()
     -- state right after a late registration
     match jObj? o "afterRegister" with
     | some cb =>
